@@ -42,6 +42,8 @@ pub struct NetStats {
 #[derive(Default)]
 struct NetState {
     listeners: BTreeMap<u16, Arc<ListenerInner>>,
+    /// ports held by some OTHER process: bind fails with EADDRINUSE (nothing connects to them in the scenarios)
+    foreign: std::collections::BTreeSet<u16>,
     knobs: NetKnobs,
     stats: NetStats,
 }
@@ -52,12 +54,19 @@ thread_local! {
 
 pub fn reset(knobs: NetKnobs) {
     NET.with(|n| {
-        *n.borrow_mut() = NetState { listeners: BTreeMap::new(), knobs, stats: NetStats::default() }
+        *n.borrow_mut() = NetState { listeners: BTreeMap::new(), foreign: Default::default(), knobs, stats: NetStats::default() }
     });
 }
 
 pub fn stats() -> NetStats {
     NET.with(|n| n.borrow().stats.clone())
+}
+
+/// Fault: the port is already in use by another process when the process under test starts.
+pub fn occupy_port(port: u16) {
+    NET.with(|n| {
+        n.borrow_mut().foreign.insert(port);
+    });
 }
 
 pub fn bound_ports() -> Vec<u16> {
@@ -343,7 +352,7 @@ impl TcpListener {
             } else {
                 port
             };
-            if n.listeners.contains_key(&port) {
+            if n.listeners.contains_key(&port) || n.foreign.contains(&port) {
                 n.stats.bind_conflicts += 1;
                 return Err(io::Error::from_raw_os_error(98));
             }
